@@ -17,7 +17,7 @@ variable (P : PParams)
 
 /-- the ground rules denoted by `head :- body.`: one per environment -/
 def instances (G : String → Prop) (head : Head) (body : List BLit) : HT.Prog GAtom :=
-  fun r => ∃ e : Env, r = HT.mkRule (fun H T => bodySat P.toParams G e H T body) (fun H T => P.headSat e H T head)
+  fun r => ∃ e : Env, r = HT.mkRule (fun H T => bodySat P.toParams G e H T body) (fun H T => P.headSat G e H T head)
 
 def auxAtomTerm (auxName : String) (vs : List String) : Term := .fn auxName (vs.map Term.var) false
 def auxLit (auxName : String) (vs : List String) : Lit := (.pos, .sym (auxAtomTerm auxName vs))
@@ -37,14 +37,14 @@ structure Cond (G : String → Prop) (S : Syn) : Prop where
   /-- every variable shared between the moved part and the rest / the head is passed through the auxiliary atom -/
   share : ∀ v, v ∈ S.new.flatMap BLit.vars → (v ∈ S.rest.flatMap BLit.vars ∨ v ∈ S.headVars) → v ∈ S.vs
   /-- the auxiliary predicate is fresh: neither part mentions it -/
-  freshNew : bodyAvoids S.auxName S.new = true
-  freshRest : bodyAvoids S.auxName S.rest = true
+  freshNew : bodyAvoids (nameSig S.auxName) S.new = true
+  freshRest : bodyAvoids (nameSig S.auxName) S.rest = true
   /-- the head depends only on its variables and not on auxiliary atoms -/
-  headVarsOk : ∀ e1 e2 : Env, (∀ v ∈ S.headVars, e1 v = e2 v) → ∀ H T, (P.headSat e1 H T S.head ↔ P.headSat e2 H T S.head)
-  headIndep : ∀ e H T H' T', AgreeOffName S.auxName H H' → AgreeOffName S.auxName T T' →
-    (P.headSat e H T S.head ↔ P.headSat e H' T' S.head)
+  headVarsOk : ∀ e1 e2 : Env, (∀ v ∈ S.headVars, e1 v = e2 v) → ∀ H T, (P.headSat G e1 H T S.head ↔ P.headSat G e2 H T S.head)
+  headIndep : ∀ e H T H' T', AgreeOffName (nameSig S.auxName) H H' → AgreeOffName (nameSig S.auxName) T T' →
+    (P.headSat G e H T S.head ↔ P.headSat G e H' T' S.head)
   /-- a plain atom head holds iff its ground atom is in `H` -/
-  atomHead : ∀ e H T t, P.headSat e H T (.lit (.pos, .sym t)) ↔ ∃ a, groundAtom P.toParams e t = some a ∧ H a
+  atomHead : ∀ e H T t a, groundAtom P.toParams e t = some a → (P.headSat G e H T (.lit (.pos, .sym t)) ↔ H a)
   aggPers : AggPersistent P.toParams
 
 theorem map_eq_pointwise {vs : List String} {e e' : Env} (h : vs.map e' = vs.map e) : ∀ v ∈ vs, e' v = e v := by
@@ -61,17 +61,17 @@ def splitData (G : String → Prop) (S : Syn) (P0 : HT.Prog GAtom) : HT.SplitDat
   P0 := P0
   N := fun e H T => bodySat P.toParams G e H T S.new
   R := fun e H T => bodySat P.toParams G e H T S.rest
-  Hd := fun e H T => P.headSat e H T S.head
+  Hd := fun e H T => P.headSat G e H T S.head
   t := fun e => S.vs.map e
   aux := fun k => ⟨S.auxName, k⟩
   aux_inj := by intro k k' h; cases h; rfl
 
 theorem agreeOffName_of (S : Syn) (G : String → Prop) (P0 : HT.Prog GAtom) {I J : Interp}
-    (h : HT.AgreeOff (splitData P G S P0).A I J) : AgreeOffName S.auxName I J := by
+    (h : HT.AgreeOff (splitData P G S P0).A I J) : AgreeOffName (nameSig S.auxName) I J := by
   intro a hn
   apply h a
   rintro ⟨k, rfl⟩
-  exact hn rfl
+  exact hn (by simp [named, nameSig, splitData])
 
 theorem glue (G : String → Prop) (S : Syn) (P0 : HT.Prog GAtom) (hc : Cond P G S) : (splitData P G S P0).Glue := by
   intro e e' ht
@@ -99,9 +99,9 @@ theorem wf (G : String → Prop) (S : Syn) (P0 : HT.Prog GAtom) (hc : Cond P G S
     (hP0 : ∀ r, P0 r → HT.Indep (splitData P G S P0).A r) : (splitData P G S P0).WF where
   p0 := hP0
   n := fun e H T H' T' aH aT =>
-    bodySat_indep P.toParams S.auxName G S.new hc.freshNew e H T H' T' (agreeOffName_of P S G P0 aH) (agreeOffName_of P S G P0 aT)
+    bodySat_indep P.toParams (nameSig S.auxName) G S.new hc.freshNew e H T H' T' (agreeOffName_of P S G P0 aH) (agreeOffName_of P S G P0 aT)
   r := fun e H T H' T' aH aT =>
-    bodySat_indep P.toParams S.auxName G S.rest hc.freshRest e H T H' T' (agreeOffName_of P S G P0 aH) (agreeOffName_of P S G P0 aT)
+    bodySat_indep P.toParams (nameSig S.auxName) G S.rest hc.freshRest e H T H' T' (agreeOffName_of P S G P0 aH) (agreeOffName_of P S G P0 aT)
   hd := fun e H T H' T' aH aT => hc.headIndep e H T H' T' (agreeOffName_of P S G P0 aH) (agreeOffName_of P S G P0 aT)
   pers := fun e H T hs h => bodySat_pers P.toParams hc.aggPers G e H T hs S.new h
 
@@ -161,13 +161,9 @@ theorem bodySat_upd (G : String → Prop) (S : Syn) (e : Env) (H T : Interp) :
     · simpa [blitSat, auxLit_sat] using h1
 
 theorem auxHead_sat (G : String → Prop) (S : Syn) (hc : Cond P G S) (e : Env) (H T : Interp) :
-    P.headSat e H T (.lit (auxLit S.auxName S.vs)) ↔ H ⟨S.auxName, S.vs.map e⟩ := by
+    P.headSat G e H T (.lit (auxLit S.auxName S.vs)) ↔ H ⟨S.auxName, S.vs.map e⟩ := by
   unfold auxLit
-  rw [hc.atomHead]
-  simp only [auxAtomTerm, groundAtom, evalTerms_vars, Option.map_some]
-  constructor
-  · rintro ⟨a, ha, h⟩; cases ha; exact h
-  · intro h; exact ⟨_, rfl, h⟩
+  exact hc.atomHead e H T _ _ (by simp only [auxAtomTerm, groundAtom, evalTerms_vars, Option.map_some])
 
 /-- the split program: context, updated rule, auxiliary rule -/
 def splitProg (G : String → Prop) (S : Syn) (P0 : HT.Prog GAtom) : HT.Prog GAtom :=
